@@ -81,6 +81,11 @@ CLAIMS = {
             "(other bits symbolic). Not decided: the contiguity lemma over the list order.",
             "static analysis: abstract interpretation in a bit-provenance domain (exhaustive over the 64 table sizes) + type-level lint",
             "DESIGN.md §4 C27"),
+    "C28": ("other", "Agreement rules over the Feldman multi-level array: head level addressed with head_node_size_log bits, deeper levels with "
+            "array_node_size_log bits by traverse and expand_slot alike (from the traversal's bit offset), node sizes = 1 << the same widths and "
+            "allocated accordingly, expand_slot stores the displaced item before publishing and never leaves a conversion unfinished, "
+            "'exhausted' failures only under eos(). NOT decided: that metrics::make's normalisation consumes all hash bits exactly.",
+            "static analysis: path rules + affine forms (reader/writer width agreement)", "DESIGN.md §4 C28"),
 }
 
 NA = {
